@@ -18,6 +18,7 @@ EXPLANATION = (
     "ghost default only where a ghost applies). R2: flow: ghost / parent fields are skipped exactly in the directions that do not materialise them. "
     "R3: struct-level #[ghosts] lines (table over member kind x conversion). R4: the as_type expansion table. R5: wrapper (brace / paren / none) per "
     "(kind, hint, shape). Values themselves are not decided.")
+EXPLANATION += ' R12 emission counter: the position handed to render_struct_line is initialised to 0 and `+= 1`-ed exactly once next to every fragment pushed in the member loop (no other write), so skipped ghost/parent members never shift a tuple slot.'
 NOT_DECIDED = ["runtime values of fields", "anything inside user expressions", "that rustc resolves the emitted names as intended", "field order across iterations beyond C03.R5/C19.R3"]
 
 F = "members.peek()!.field_data#Field.0"
